@@ -16,6 +16,12 @@ statement with an inline list (expanding bind), ``literal_binds`` text, an expan
 again with lists of changing length (to/from empty) so the compiled cache entry is
 re-bound; cache hits are counted and required.
 
+Typed tuples: the same tuple IN is run over element types that HAVE a bind processor on
+SQLite (Date, DateTime, Boolean, Enum, a TypeDecorator) mixed with Integer / String in
+twelve column orders, bound (first execution and cache hits), re-bound on one cached
+statement with changing list lengths, and through literal_execute; the oracle there is a
+Python model (no NULLs): a row matches iff its tuple of Python values is in the list.
+
 Other dialects (no server): the statement is executed on a recording DBAPI
 (postgresql+psycopg2, mysql+pymysql, mssql+pyodbc, oracle+oracledb) and the recorded
 (sql, params) judged structurally: the IN list holds exactly len(values) * arity
@@ -54,7 +60,8 @@ META = {
     "soft_s": {"quick": 50, "thorough": 800},
     "exhaustive": {"quick": True, "thorough": True},
     "require": ["truth_values_compared", "null_truth_values_seen", "empty_lists", "cache_hits", "rebinds_changed_length",
-                "fake_statements_judged", "empty_fragment_transplants"],
+                "fake_statements_judged", "empty_fragment_transplants",
+                "typed_tuple_cases", "typed_tuple_rows_matched", "typed_tuple_rebinds_changed_length"],
     "assumptions": ["SQLite evaluates scalar =, AND, OR, NOT under standard three-valued logic"],
 }
 
@@ -167,9 +174,129 @@ def run(ctx):
     rig = Rig(ctx)
     try:
         _run_sqlite(ctx, rig, sa)
+        _run_typed_tuples(ctx, rig, sa)
         _run_fake(ctx, rig, sa)
     finally:
         rig.close()
+
+
+# ---------------------------------------------------------------------------
+# tuple IN over element types that HAVE a bind processor on the dialect
+# ---------------------------------------------------------------------------
+def _run_typed_tuples(ctx, rig, sa):
+    """tuple_(typed columns).in_(list of python tuples): Date / DateTime / Boolean / Enum /
+    a TypeDecorator / Integer / String elements in several column orders, so that the
+    per-position bind processors differ.  No NULLs here, so the oracle is a pure Python
+    model: a row matches iff its tuple of Python values equals a member of the list.
+    Deliveries: fresh statement (first execution of the shape compiles it, later ones hit
+    the cache), ONE statement re-bound with lists of changing length, literal_execute."""
+    import datetime as dt
+    import enum
+    import itertools as it
+
+    class Shifted(sa.TypeDecorator):
+        """stores v + 1000: a wrong or missing bind processor is visible in the rows"""
+        impl = sa.Integer
+        cache_ok = True
+
+        def process_bind_param(self, value, dialect):
+            return None if value is None else value + 1000
+
+        def process_result_value(self, value, dialect):
+            return None if value is None else value - 1000
+
+    class Colour(enum.Enum):
+        red = 1
+        green = 2
+
+    md = sa.MetaData()
+    tt = sa.Table(
+        "tt", md, sa.Column("id", sa.Integer, primary_key=True),
+        sa.Column("d", sa.Date), sa.Column("ts", sa.DateTime), sa.Column("b", sa.Boolean(create_constraint=False)),
+        sa.Column("e", Shifted), sa.Column("i", sa.Integer), sa.Column("s", sa.String(10)), sa.Column("c", sa.Enum(Colour)),
+    )
+    conn = rig.conn
+    md.create_all(conn)
+    pool = {
+        "d": [dt.date(2020, 1, 31), dt.date(1999, 12, 31)],
+        "ts": [dt.datetime(2020, 1, 31, 23, 59, 59), dt.datetime(2001, 2, 3, 4, 5, 6, 7)],
+        "b": [True, False], "e": [1, 2], "i": [1, 2], "s": ["1", "x"], "c": [Colour.red, Colour.green],
+    }
+    absent = {"d": dt.date(2000, 1, 1), "ts": dt.datetime(2000, 1, 1), "b": True, "e": 1001, "i": 1001, "s": "1001", "c": Colour.green}
+    names = list(pool)
+    rows = []
+    for k, combo in enumerate(it.product(*[range(2)] * 3)):
+        # rows vary three independent bits over the seven columns
+        r = {"id": k + 1}
+        for ci, nme in enumerate(names):
+            r[nme] = pool[nme][combo[ci % 3]]
+        rows.append(r)
+    conn.execute(tt.insert(), rows)
+    conn.commit()
+    shapes = [("d", "i"), ("i", "d"), ("ts", "b"), ("b", "ts"), ("e", "s"), ("s", "e"), ("i", "e", "d"), ("c", "ts", "i"),
+              ("d", "ts"), ("b", "e", "c"), ("s", "i"), ("e", "d")]
+    cached = {}
+    last_len = {}
+    idx = 0
+    try:
+        for shape in shapes:
+            cols = [tt.c[n] for n in shape]
+            L = sa.tuple_(*cols)
+            present = sorted({tuple(r[n] for n in shape) for r in rows}, key=repr)[:3]
+            cand = present + [tuple(absent[n] for n in shape), tuple(list(present[0][:-1]) + [absent[shape[-1]]])]
+            lists = [[]] + [[c] for c in cand] + [list(p) for p in it.permutations(cand[:4], 2)] + [cand[:3], cand]
+            for values in lists:
+                for form in ("in", "not_in"):
+                    for delivery in ("inline", "cached", "literal_execute"):
+                        idx += 1
+                        if not ctx.mine(idx):
+                            continue
+                        if not ctx.budget_ok():
+                            return
+                        if not values and delivery == "literal_execute":
+                            continue  # the registered known finding (sqlite-error:tuple-empty-literal), judged above
+                        member = {r["id"] for r in rows if tuple(r[n] for n in shape) in set(values)}
+                        want = sorted(member if form == "in" else {r["id"] for r in rows} - member)
+                        desc = {"shape": list(shape), "values": values, "form": form, "delivery": delivery}
+                        sql = None
+                        try:
+                            if delivery == "cached":
+                                key = (shape, form)
+                                st = cached.get(key)
+                                if st is None:
+                                    bp = sa.bindparam("vals", expanding=True)
+                                    st = cached[key] = sa.select(tt.c.id).where(L.in_(bp) if form == "in" else L.not_in(bp)).order_by(tt.c.id)
+                                res = conn.execute(st, {"vals": list(values)})
+                                if res.context.cache_hit is sa.engine.interfaces.CacheStats.CACHE_HIT and last_len.get(key) not in (None, len(values)):
+                                    ctx.count("typed_tuple_rebinds_changed_length")
+                                last_len[key] = len(values)
+                            else:
+                                v = list(values) if delivery == "inline" else sa.bindparam("vals", value=list(values), expanding=True, literal_execute=True)
+                                st = sa.select(tt.c.id).where(L.in_(v) if form == "in" else L.not_in(v)).order_by(tt.c.id)
+                                res = conn.execute(st)
+                            sql = res.context.statement
+                            params = res.context.parameters
+                            got = [r[0] for r in res.cursor.fetchall()]
+                            res.close()
+                        except (sa.exc.SQLAlchemyError, NotImplementedError) as e:
+                            ctx.violation(f"sqlite-typed-tuple-error:{_how(delivery)}", f"{type(e).__name__}: {str(e)[:200]}", dict(desc, sql=sql))
+                            continue
+                        ctx.case(desc, nontrivial=True)
+                        ctx.count("typed_tuple_cases")
+                        ctx.count("typed_tuple_rows_matched", len(got))
+                        if got != want:
+                            ctx.violation(
+                                f"sqlite-typed-tuple-value:{_how(delivery)}",
+                                f"tuple_({', '.join(shape)}).{form}({values!r}) via {delivery}: ids {got} want {want} :: {sql} {params!r}",
+                                dict(desc, sql=sql, params=params, got=got, want=want),
+                            )
+    finally:
+        md.drop_all(conn)
+        conn.commit()
+
+
+def _how(delivery):
+    return "literal" if delivery in ("literal_binds", "literal_execute") else ("rebound" if delivery == "cached" else "bound")
 
 
 def _nontrivial(arity, values):
